@@ -86,13 +86,13 @@ var commonAssumptions = []string{
 }
 
 var propSpecs = map[string]*propSpec{
-	"C01": {ID: "C01", Rules: rr("I1", "I2", "I3", "I4", "I6", "I8", "I9", "I10"), Controls: []string{"I4", "I2", "I8", "I9", "I10"},
+	"C01": {ID: "C01", Rules: rr("I1", "I2", "I3", "I4", "I6", "I8", "I9", "I10", "T6"), Controls: []string{"I4", "I2", "I8", "I9", "I10"},
 		Explanation: "Repo-side necessary conditions of order-independence: every index implementation computes its view from the log's total order only (I1: Values(), never GetEntries/Heads/Iterator/the incremental argument), the last-writer-wins scan is coherent (I2: scan direction vs first-seen guard; tested, marked and written key identical by normal form), store and index agree on the opcode table (I3), and every route that changes the log (write path, three merge sites) refreshes the view before reporting success (I4). The index interprets the whole total order and nothing it remembers between calls decides what is interpreted (I6). View maps are keyed by the key as written, or hold a collection per computed key (I8); JSON decode targets are allocated for the decode, because everything is encoded with omitempty (I9).",
 		NotDecided:  "that Join is set union and Values() a deterministic total order (CRDT inside go-ipfs-log); actual delivery orders."},
 	"C02": {ID: "C02", Rules: cat(rr("W1", "L2", "P3", "Q4", "T6", "L3", "Q2", "Q3", "Q5"), []ruleRef{only("P2", "_localHeads", "Get(", "anchor"), only("Q1", "failed-fetch", "tasks[]")}), Controls: []string{"P3", "T6", "L3"},
 		Explanation: "Wiring needed for eventual delivery: a peer joining the topic reaches the head exchange, which sends the cached heads under the store's own address on its success path (W1); the key the write path persists is the one the exchange and the load path read (P2); fetched entries' next links are queued (L2); and the persisted local head covers every acknowledged write because Append and the persisting Put share a critical section (P3). The replicator sets no fetch timeout (Q4: under DF7 a timeout silently truncates ancestry) and the locally written head is in the exchanged message on every path (W1 selection test). Whether a received head is handed to the replicator does not depend on an insert-only or unverified memo (T6); the replicator's buffer is read out and reset inside one critical section, counting the locks every caller holds (L3). A request abandoned while the links were cut leaves the replicator able to serve the re-sent heads after the heal: a hash whose fetch failed or came back empty is not kept as fetched (Q1, Q3), a worker that gives up gives its queued item back (Q2), and every counter the idle test reads is given back on every path of a worker, wherever it was taken — in the worker, at enqueue or where the worker is started (Q5).",
 		NotDecided:  "liveness itself: fault sequences, retries, pubsub behaviour, fetchability of blocks."},
-	"C03": {ID: "C03", Rules: rr("A1", "A2", "A3", "A4", "T2"), Controls: []string{"A1"},
+	"C03": {ID: "C03", Rules: rr("A1", "A2", "A3", "A4", "T2", "T3"), Controls: []string{"A1"},
 		Explanation: "For all access-controller implementations: every accepting path of CanAppend passes a successful write-list membership comparison and an identity verification whose result is used (A1); that verification is not a constant accept (A2, derived from the dependency); the signing key is bound to the named identity (A3); every log is constructed with the store's controller and database id, is mutated only through Append/Join, and the controller and store type come from the manifest at the address root (A4). Join is always called on the store's own log with the fetched log as argument, and the oplog field is only assigned a fresh NewLog (T2).",
 		NotDecided:  "cryptographic soundness of signatures; that the dependency's Join/Append call CanAppend and Verify for every new entry (read once, DF6)."},
 	"C04": {ID: "C04", Rules: rr("T1", "A4", "T2", "T3", "T4", "T5"), Controls: []string{"T1"},
